@@ -347,11 +347,20 @@ class DefaultOperatorResolver(OperatorResolver):
                 raise FormulaSyntaxError(
                     "The right-hand argument of `**` must be a positive integer."
                 )
+            try:
+                exponent = (
+                    ast.literal_eval(power_term.factors[0].expr)
+                    if len(power_term.factors) == 1
+                    and power_term.factors[0].token
+                    and power_term.factors[0].token.kind is Token.Kind.VALUE
+                    else None
+                )
+            except (ValueError, SyntaxError):
+                exponent = None
             if (
-                not len(power_term.factors) == 1
-                or not power_term.factors[0].token
-                or power_term.factors[0].token.kind is not Token.Kind.VALUE
-                or not isinstance(ast.literal_eval(power_term.factors[0].expr), int)
+                not isinstance(exponent, int)
+                or isinstance(exponent, bool)
+                or exponent < 1
             ):
                 raise exc_for_token(
                     power_term.factors[0].token or Token(),
@@ -359,7 +368,7 @@ class DefaultOperatorResolver(OperatorResolver):
                 )
             return OrderedSet(
                 functools.reduce(lambda x, y: x * y, term)
-                for term in itertools.product(*[arg] * int(power_term.factors[0].expr))
+                for term in itertools.product(*[arg] * exponent)
             )
 
         def multistage_formula(
